@@ -304,6 +304,8 @@ def cases(tier):
         [("A0", "f1", 5), ("B0", "f1", 0), ("B1", "f2", 9), ("C0", "f1", 3)],
         [("B1", "f3", 2), ("A0", "f2", 10)],
         [("C0", "f4", 7)],
+        # half grades (user_rate is documented as a float)
+        [("A0", "f1", 7.0), ("B0", "f1", 2.5), ("B1", "f2", 9.5)],
     ]
     for e in exports:
         cs.append({"kind": "export", "curves": e})
